@@ -21,6 +21,7 @@ claimed = {
  "C12": ("symx (mostly structural): drop-counting guards and WeakIncr probes vs. reachability from live handles, all drop orders incl. the state, both profiles", "5/C12"),
  "C19": ("symx (configuration forked): height limit N, chain/bind heights around N, grow/shrink reconfiguration, cycles, foreign-state nodes, nested stabilise; both profiles", "5/C19"),
  "C20": ("symx: WeakIncr::strong_count oracle for sharing vs. re-invocation, calls from top level and from bind closures, recursive variant", "5/C20"),
+ "C14": ("symx: dynamic-sum expert node with plan-driven add/remove of dependencies from a child's function; + over callback-delivered terms vs. reference sum; callback snapshot at each recompute", "5/C14"),
  "C13": ("symx: panic injected at a symbolic user-function invocation, caught; all-or-refuse check on every observer, refusal of further stabilise, drop under catch_unwind; both profiles", "5/C13"),
  "C09": ("symx: expected notification per subscription derived from the reference, solver-decided change", "5/C09"),
  "C10": ("symx (structural): lifecycle model vs. returned Results over all op vectors", "5/C10"),
